@@ -463,6 +463,14 @@ class SimulatorBackend(LocalBackend):
         # Process final ``CompleteEvent``
         self._time_keeper.advance_to(time_complete + 1e-3)
         self._process_events_until_now()
+        # Results of this trial which arrived until the stop signal reached the
+        # worker are ignored. If they were left in ``_next_results_to_fetch``
+        # and the trial is resumed before the next call of
+        # :meth:`fetch_status_results`, they would be returned as results of
+        # the resumed run
+        stale_results = self._next_results_to_fetch.pop(trial_id, None)
+        if stale_results:
+            self._last_metric_seen_index[trial_id] += len(stale_results)
         self._time_keeper.mark_exit()
 
     def _run_job_and_collect_results(
